@@ -546,9 +546,34 @@ func init() {
 				}
 				items = append(items, it)
 			}
+			// "...of every Go/JSON/form representation": the record through all eight front ends, untagged and
+			// source-tagged, any one unit over the front-end alphabets; reported here: a rendering that yields the same
+			// issues as the Go map but another destination
+			rf := recordFields(false)
+			for _, cfg := range []int{0, 2} {
+				tv := uniformTags(rf, cfg)
+				for _, fs := range focusSets(skelUnits(recordSkel(FEMap, nil, false), 2), 1) {
+					items = append(items, Item{Name: fmt.Sprintf("front-ends/uniform%d/focus{%s}", cfg, strings.Join(fs, ",")), MaxDevs: -1, Run: c03FrontEnds(c14Scenario(tier, tv, fs, false, 2))})
+				}
+			}
 			return items
 		},
 	})
+}
+
+func c03FrontEnds(inner mc.Scenario) mc.Scenario {
+	return func(x *mc.X) *mc.Outcome {
+		out := inner(x)
+		var keep []*mc.Violation
+		for _, v := range out.Viol {
+			if strings.HasPrefix(v.Key, "C14:dest-differ:") {
+				v.Key = "C03:front-end:" + strings.TrimPrefix(v.Key, "C14:")
+				keep = append(keep, v)
+			}
+		}
+		out.Viol = keep
+		return out
+	}
 }
 
 // ---------------------------------------------------------------------------
